@@ -110,8 +110,11 @@ let () =
                | Some i -> let n = int_of_string (String.sub tok 0 i) in
                  let wv = bv_of_string (String.sub tok (i + 1) (String.length tok - i - 1)) in List.init n (fun _ -> wv)
                | None -> [ bv_of_string tok ]) (String.split_on_char ',' (get "words" "")) in
-           let honoured =
-             if pp then (clk.[0] = 'P' || clk.[1] = 'S' || not haswr) else (clk.[0] = 'P' || not haswr) in
+           (* declared contents are present when the power-on state is honoured (initializeMemory, or a ROM) or, after
+              post-processing, when the generated reset logic loads them (memoryResetType <> NONE, needs a write port);
+              addResetLogic contents exist only through the reset logic *)
+           let by_reset = pp && clk.[1] <> 'N' && haswr in
+           let honoured = if get "init" "none" = "rlogic" then by_reset else (clk.[0] = 'P' || not haswr || by_reset) in
            let mem0 = if honoured then initw else List.map (fun _ -> all_X (nat_of_int width)) initw in
            let lat = int_of_string (get "L" "0") in
            let nreads = List.length (List.filter (fun p -> p.kind = 'R' || p.kind = 'E' || p.kind = 'N') ports) in
